@@ -664,3 +664,113 @@ def _hist_op(tag, op, out, last, dev):
         out["lines"] = len(_quiet(tag.dump))
         return last
     raise ValueError(name)
+
+
+# --------------------------------------------- multi-sector Type 2 Tag layouts
+# (added for the C01 leg `t2t-sectors`; nothing above uses these helpers)
+T2_SECTOR = 1024
+T2_DATA_START = 16
+
+
+def t2t_ctrl_bases(lo=272, hi=48, bpps=range(4, 12)):
+    """every (boundary, bpp, page) a lock / memory control TLV can use to
+    address a byte range that starts between ``lo`` bytes in front of and
+    ``hi`` bytes behind a Type 2 Tag sector boundary that a one-byte CC size
+    can reach (1024, 2048): start address = page * 2**bpp + offs, page and
+    offs are nibbles"""
+    out = []
+    for boundary in (T2_SECTOR, 2 * T2_SECTOR):
+        for bpp in bpps:
+            for page in range(16):
+                base = page << bpp
+                if boundary - lo <= base + 15 and base <= boundary + hi:
+                    out.append([boundary, bpp, page])
+    return out
+
+
+def t2t_sector_ctrl(raw, boundary):
+    """raw = [base index, byte offset, kind, mode, size, dist] -> one lock
+    (kind 1) or memory (kind 2) control TLV whose range lies near or across
+    the sector ``boundary`` (1024 or 2048).  The start address is the
+    (index modulo number of bases)-th entry of t2t_ctrl_bases for that
+    boundary plus the byte offset; the size is ``size`` bytes (mode 0; lock
+    control at most 32 bytes) or chosen so that the range ENDS ``dist``
+    bytes behind (< 0: in front of) the sector boundary, clipped to what the
+    size field can say (1..256 bytes, lock control 1..32 bytes)."""
+    idx, offs, kind, mode, anysize, dist = raw
+    bases = [b for b in t2t_ctrl_bases() if b[0] == boundary]
+    _, bpp, page = bases[idx % len(bases)]
+    start = (page << bpp) + offs
+    nbytes = anysize if mode == 0 else boundary + dist - start
+    nbytes = max(1, min(32 if kind == 1 else 256, nbytes))
+    # lock control: number of lock bits, memory control: number of bytes;
+    # 0 stands for 256 in both
+    size = (nbytes * 8) & 0xFF if kind == 1 else nbytes & 0xFF
+    return {"t": kind, "page": page, "offs": offs, "size": size, "bpp": bpp}
+
+
+def t2t_sector_desc():
+    """strategy: Type 2 Tag layouts at and beyond the 1 KiB sector size: data
+    area ends just in front of / at / just behind the first sector boundary,
+    somewhere in the second sector, or at / behind the second boundary (CC2
+    = 125..255 -> data area ends at 1016..2056), physical memory 0..40 bytes
+    longer; 1..3 control TLVs from t2t_sector_ctrl (ranges near / across a
+    sector boundary: 1024, or - for half of the TLVs of a tag whose data area
+    ends behind address 1792 - 2048), optionally one arbitrary TLV of
+    ctrl_tlv() in front; NULL TLVs, filler as t2t_desc."""
+    size = st.one_of(
+        st.sampled_from([125, 126, 127, 128, 129, 130, 132, 134, 160]),
+        st.sampled_from([192, 240, 250, 252, 253, 254, 255, 255]),
+        st.integers(125, 255))
+    raw = st.tuples(
+        st.integers(0, 10), st.integers(0, 15),
+        st.sampled_from([2, 2, 2, 1]), st.sampled_from([0, 1, 1]),
+        st.one_of(st.integers(1, 256), st.integers(1, 48)),
+        st.one_of(st.integers(-32, 48),
+                  st.sampled_from([-16, -1, 0, 1, 8, 15, 16, 17, 32])),
+        st.booleans())
+
+    def mk(d):
+        far = T2_DATA_START + 8 * d["size"] > 1792
+        ctrl = d["pre"] + [
+            t2t_sector_ctrl(r[:6], (2 if far and r[6] else 1) * T2_SECTOR)
+            for r in d["near"]]
+        return {"kind": "t2t", "size": d["size"], "extra": d["extra"],
+                "ctrl": ctrl, "nulls": d["nulls"], "filler": d["filler"]}
+    return st.fixed_dictionaries({
+        "size": size,
+        "extra": st.sampled_from([0, 0, 4, 8, 16, 20, 40]),
+        "pre": st.lists(ctrl_tlv(), max_size=1),
+        "near": st.lists(raw, min_size=1, max_size=3),
+        "nulls": st.sampled_from([0, 0, 0, 1, 2, 3, 5]),
+        "filler": st.sampled_from([0x00, 0x00, 0xFF, 0x5A, 0xFE, 0x03])}
+    ).map(mk)
+
+
+def layout_anchors(info):
+    """addresses of a Type 1/2 layout (info of ref_tlv.build / layout) where
+    the linear walk over the NDEF message area changes: first and
+    one-past-last address of every maximal reserved run behind the NDEF TLV's
+    tag byte, every 1 KiB sector boundary, the end of the data area (sorted,
+    all within tlv_off < A <= data_end)"""
+    lo, end, rsvd = info["tlv_off"], info["data_end"], info["reserved"]
+    out = set([end])
+    for a in range(lo + 1, end + 1):
+        if a % T2_SECTOR == 0:
+            out.add(a)
+        if a < end and (a in rsvd) != ((a - 1) in rsvd):
+            out.add(a)
+    return sorted(out)
+
+
+def anchor_len(info, cap, i, d):
+    """message length (0..cap+1) whose NDEF TLV - header and value - ends ``d``
+    available bytes behind (d < 0: in front of) the i-th anchor of the layout
+    (i modulo the number of anchors): with d = 0 the last value byte is the
+    last available byte in front of the anchor and the terminator TLV goes
+    to the first available byte at / behind it"""
+    anchors = layout_anchors(info)
+    a = anchors[i % len(anchors)]
+    n = len([x for x in info["avail"] if x < a]) + d
+    ln = n - 4 if n - 4 >= 255 else min(n - 2, 254)
+    return max(0, min(ln, cap + 1))
